@@ -9,12 +9,16 @@ CFG = {
         "rt": {"header": HDR19, "model_fn": "model_rt", "rule": "F"},
         "cross": {"header": HDR19, "model_fn": "model_cross", "rule": "F"},
         "ctx": {"header": HDR19, "model_fn": "model_ctx", "rule": "F"},
+        "reser": {"header": HDR19, "model_fn": "model_reser", "rule": "F"},
     },
     "rule_text": "rt: one case = (Rust type mirrored as a `ty` term, value mirrored as an `sval` term) with the implementation's "
                  "try_from_serializable result, both deserialisation results (owned Value and &Value) as data-model terms, the text "
                  "`{{ v }}` renders and the std `{:?}` oracles for the strings/floats in it; compared with ser / de Fixed / format of the "
                  "model. cross: (target type, arbitrary Value) -> both deserialisation results vs de Fixed (acceptance table off the "
-                 "diagonal). ctx: Context::from_serialize read back through get() vs the model's from_serialize. Distinct by the Gallina "
+                 "diagonal). ctx: Context::from_serialize read back through get() vs the model's from_serialize. reser: an arbitrary Value (every value kind incl. undefined, bytes, safe strings, "
+                 "128-bit integers; maps with every key kind Bool/U64/I64/U128/I128/String/Str; nested) through Value::try_from_serializable(&value) "
+                 "vs the model's reser (impl Serialize for Value / for Key). Oracle on every rt case: re-serialising the converted value gives a "
+                 "strictly identical value, and insert(k,&converted) stores/renders what insert_value(k,converted) does. Distinct by the Gallina "
                  "term; non-trivial = the value's term is longer than a bare scalar (rt, ctx), the implementation accepted the value "
                  "(cross). Values: every boundary value of every primitive width, then generated values of ~90 types (nesting depth 3) "
                  "from the boundary pools.",
@@ -33,7 +37,7 @@ CFG = {
     ],
     "modelled": ["value/ser.rs ValueSerializer, MapKeySerializer, SerializeSeq/TupleVariant/Map/Struct/StructVariant",
                  "value/de.rs ValueDeserializer (deserialize_any/option/enum), EnumDeserializer, VariantDeserializer, impl Deserializer for Value and for &Value",
-                 "value/mod.rs Value::format, format_map; value/key.rs Key::{as_value, format, Display, PartialEq, Ord}",
+                 "value/mod.rs impl Serialize for Value; value/key.rs impl Serialize for Key", "value/mod.rs Value::format, format_map; value/key.rs Key::{as_value, format, Display, PartialEq, Ord}",
                  "context.rs Context::{from_serialize, insert, insert_value, get}"],
     "assumptions": ["the model is of the code with the repairs fixes/D7-deser-by-ref.patch and fixes/D14-newtype-struct-deser.patch applied",
                     "Option<T> round-trips only when T has no none-like representation (T not (), a unit struct, an Option, or a newtype of those): "
